@@ -97,6 +97,15 @@ svc = service("UniversalService", [
         arg("id", I, "path", safety="SAFE"),
         arg("body", r("Payload"), "body"),
     ], returns=I),
+    # undeclared collection bodies whose safety hinges on one side of a map / on an element
+    endpoint("enumMapBody", "POST", "/u/enummap/{id}", [
+        arg("id", I, "path", safety="SAFE"),
+        arg("body", mp(r("Color"), r("StrAlias")), "body"),
+    ]),
+    endpoint("safeEnumMapBody", "POST", "/u/safeenummap/{id}", [
+        arg("id", I, "path"),
+        arg("body", mp(r("Color"), lst(r("Color"))), "body"),
+    ]),
     endpoint("context", "GET", "/u/context", [arg("arg", opt(S), "query", "arg")], tags=["server-request-context"]),
     endpoint("noop", "POST", "/u/noop", []),
 ], P)
